@@ -415,8 +415,14 @@ func (c c10) Exec(sc *sim.Scenario, env *sim.Env) (viol *sim.Violation) {
 	w := &c10world{env: env, st: st, relax: env.Relax["D2"]}
 	w.img = sim.ForkSeed(sc.Seed, "image").Bytes(size)
 	// a plausible header area so that NewROM accepts the image
+	hr := sim.ForkSeed(sc.Seed, "header")
 	for i := 0x7FB0; i < 0x8000 && i < size; i++ {
-		w.img[i] = byte(i)
+		w.img[i] = byte(hr.Intn(256))
+	}
+	if size > 0x7FD8 {
+		w.img[0x7FD5] = byte(sim.PickInt(hr, 0x20, 0x21, 0x23, 0x25, 0x30, 0x31, 0x35, hr.Intn(256))) // map mode
+		w.img[0x7FD7] = byte(hr.Intn(14))                                                             // ROM size
+		w.img[0x7FD8] = byte(hr.Intn(9))                                                              // RAM size
 	}
 	w.model = append([]byte{}, w.img...)
 	name := "sim"
